@@ -39,6 +39,23 @@ FIRST_MISS = {
     ('C04', 'm6'): "values sent to the solver side were checked on linear images only and shared items were rare: subexpressions are now reused across constraints, and a transfer of +v / -v on one original constraint (0 elsewhere) must reach the same delivered items",
     ('C04', 'm7'): "the solver's dual tags (20000+) were always larger than its primal tags (10000+), so the largest-non-zero rule picked the right value even when the slack variable's primal value was copied into the range constraint's dual; dual tags are now also negative, small or zero",
     ('C10', 'm6'): "the stub driver registered its own result codes only without permission to replace; the -! block now runs six registration variants (new codes, sub-ranges, re-registration; replace on/off) and every documented range and every registered code must stay listed",
+    # ---- round 4 (m8, m9)
+    ('C15', 'm8'): "harness: the change makes every run die in ASan (the handler object outlives the backend), including the fault-free run the C15 generator performs for its census, so no scenario could be regenerated and the check ended with exit 2; engines now offer a fault-free baseline scenario that needs no run, and the supervisor gates that one when the generator dies",
+    ('C15', 'm9'): "the solver party's callbacks always answered true; what a callback answers ('false if the solver is not running') is now scripted per scenario (F, FT, TF, TTF, FFT)",
+    ('C11', 'm8'): "real literals were always in %.17g form; explicit plus signs, '.5', '5.', upper-case exponents with sign are now generated",
+    ('C08', 'm8'): "suffix values were positive; negative integer and real values are now generated",
+    ('C03', 'm9'): "the receiving handler always took every objective; a handler that wants a single objective (NeedObj) now reads text and binary files, its declined objectives must not be notified",
+    ('C10', 'm8'): "sol:chk:fail was only run with status 0; it now runs with a violating answer under every code 0..999 (150 wherever the code announces a solution candidate, 200-299 unchanged)",
+    ('C10', 'm9'): "one process was one RunBackendApp run; sessions through the AMPLS C API (one solver instance, several solve + report rounds to the standard or a named .sol file) were added to the harness and to C10",
+    ('C12', 'm8'): "after a rejected objno only the diagnostic was checked; the .sol that reports the failure must not echo the number of an objective the file does not have, and 'objno -1' is demanded whenever no objective was used",
+    ('C12', 'm9'): "objno always arrived in an option string; in 15 % of the cases where it is given it is now set through the option API of an AMPLS session before the model is loaded",
+    ('C09', 'm9'): "option files either existed or could not be opened; files that open but cannot be read (a directory; a read fault EIO on the option file) are now generated (and the CPU budget of a run went from 20 s to 10 s, the supervisor stops once 24 hangs are on record)",
+    ('C04', 'm8'): "input suffixes never had the names of result suffixes; the .iis flags of an earlier run now come in with the NL file (a re-solve), and a flag the solver reports as 0 must not keep its old value",
+    ('C04', 'm9'): "a converted range constraint was only recognised as body + slack = ub; body - slack = lb is recognised too and the expected basis / IIS mapping follows the algebra of the delivered row (no exchange of low and upp in that form)",
+    ('C02', 'm8'): "hostile counts were boundary values of int / unsigned; counts whose multiples by an element size wrap around 2^32 (k*2^28+1, 2^k+-1) and PL terms with up to 31 slopes are now generated",
+    ('C14', 'm8'): "consumers were test handlers; the library's own SOLHandler_Easy (NLSolver::ReadSolution for an NLModel of the declared size, permuted columns) is now a consumer party",
+    ('C14', 'm9'): "harness: the change hangs on every text file cut inside a value; each hang cost the 6 s CPU budget and the quick check would have needed hours - the supervisor now stops dispatching once 24 hangs are on record (exit 1 after the gate)",
+    ('C20', 'm9'): "records of defined variables (NL_COMMON_EXPR_index) were not demanded; every defined variable of the NL file must have one, referenced or not",
 }
 
 res = {}
